@@ -14,6 +14,13 @@ MUTANTS = [
     ('taper end off by one', [(W + 'compute_taper1_segments', "d = dict (end = self.segtype - 1)", "d = dict (end = self.segtype)")], ['taper-mirror']),
     ('rotate allowed after segmentation', [(W + 'rotate', "        assert not getattr (self, 'segments', None)\n", "")], ['not-segmented']),
 ]
+MUTANTS += [
+    ('arc point off the circle', [('mininec.Arc.__init__', "segends.append ([radius * np.cos (a), 0.0, radius * np.sin (a)])", "segends.append ([radius * np.cos (a), 0.0, radius * np.cos (a)])")], ['on-curve']),
+    ('arc angle quadratic', [('mininec.Arc.__init__', "a = a1 + (a2 - a1) / n_segments * i", "a = a1 + (a2 - a1) / n_segments * i * i / n_segments")], ['on-curve', 'closing']),
+    ('helix negative branch off the ellipse', [('mininec.Helix.__init__', "                x  = -xm * np.sin (a)\n                y  =  ym * np.cos (a)", "                x  = -xm * np.sin (a)\n                y  =  ym * np.sin (a)")], ['on-curve', 'closing']),
+    ('helix closing point with start radius', [('mininec.Helix.__init__', "        x = rx2 * np.cos (a)\n        y = ry2 * np.sin (a)", "        x = rx1 * np.cos (a)\n        y = ry2 * np.sin (a)")], ['closing', 'on-curve']),
+    ('helix closing point handedness', [('mininec.Helix.__init__', "        a = s * (abs (length) % abs (turnlen)) / abs (turnlen) * 2 * np.pi", "        a = (abs (length) % abs (turnlen)) / abs (turnlen) * 2 * np.pi")], ['closing']),
+]
 REFACTORS = [
     ('equal segments loop variable renamed', [(W + 'compute_equal_segments', "        for i in range (self.n_segments):\n            s1 = seg + (i + 1) * dirvec * seg_len", "        for k in range (self.n_segments):\n            s1 = seg + (k + 1) * dirvec * seg_len")]),
 ]
